@@ -468,8 +468,8 @@ fn au_leg(src: &mut Src, ctx: &mut RunCtx, solo: &Arc<Solo>) -> RunResult {
                     if v.is_nan() { 0 } else if v >= 32767.0 { 32767 } else if v <= -32768.0 { -32768 } else { v.trunc() as i16 }
                 })
                 .collect();
-            if bytes != au_bytes(44100, &q) {
-                return Err(Violation::new("C14:au-encode-bytes", format!("AuEncode output ({} bytes) is not header + big-endian PCM16 of the {n} input samples", bytes.len())));
+            if let Err(e) = crate::blocks::au_check(&bytes, 44100, &q, true) {
+                return Err(Violation::new("C14:au-encode-bytes", format!("AuEncode output ({} bytes) is not a valid .au header followed by the big-endian PCM16 of the {n} input samples: {e}", bytes.len())));
             }
             let want: Vec<f32> = q.iter().map(|&s| s as f32 / 32767.0).collect();
             if got.len() != want.len() || got.iter().zip(&want).any(|(a, b)| a.to_bits() != b.to_bits()) {
